@@ -1100,26 +1100,39 @@ def check_parent_ids_value(m: pf.Module, fn: FuncDef, e: ast.expr, role: str) ->
 #
 # Atoms of a provenance set:
 #   ('db', line, typed)        result of a query executed on the database handle by THIS invocation
-#   ('dbh',)                   the database handle itself (app['db'], the tx of a @transaction(db) function)
-#   ('ret', root, typed)       read from state that outlives the invocation: app[...] entries, module-level mutable objects, self attributes,
-#                              results of memoised functions.  root names it.
+#   ('dbh',)                   the database handle itself (app['db'], a parameter annotated Database / Transaction, the tx of a @transaction(db) function)
+#   ('apph',)                  the application object itself (app, request.app, ...): the door to everything that outlives the request
+#   ('ret', root, typed)       read from state that outlives the invocation: app[...] entries, module-level mutable objects and module names re-bound
+#                              through `global`, attributes of self / of module-level classes and functions, mutable parameter defaults, variables of
+#                              an enclosing function whose nested function escapes (decorators, factories), results of memoised functions.  root names it.
 #   ('reader', f, True)        the result of calling a status reader of the module (checked on its own)
 #   ('fref', f, True)          a reference to such a function
 #   ('param', name, typed) | ('unk', why, typed)
-# `typed` = the value (may) carry a status dict: it came out of a record -> dict converter, out of a reader, or out of a retained root
-# into which such a value is stored somewhere in the module.
+# `typed` on the atom = the value went through a record -> dict converter.  Whether a value (may) carry a status is decided by `is_typed`:
+# converter output, reader results, values read from a database row that also feeds a converter (status_lines), and values read back from a
+# retained root into which such a value is stored somewhere in the module (typed_roots; WHO MAY STORE is decided interprocedurally: a
+# parameter is expanded to the actual arguments of the call sites of its function, decorator applications included).
 
 CONVERTERS = ('batch_record_to_dict', 'job_group_record_to_dict')
 DB_METHODS = ('select_and_fetchone', 'select_and_fetchall', 'execute_and_fetchone', 'execute_and_fetchall')
+DB_TYPES = ('Database', 'Transaction')
 MEMO_WORDS = ('lru_cache', 'alru_cache', 'cache', 'cached', 'cachedmethod', 'memoize', 'memoise', 'memoized', 'ttl_cache', 'async_lru', 'cached_property')
 CONTAINER_STORE_METHODS = ('setdefault', 'put', 'append', 'add', 'update', 'insert', 'set', 'store', 'appendleft', 'extend')
+STORE_METHODS = CONTAINER_STORE_METHODS + ('remember', 'memoize', 'memoise', 'memo', 'cache', 'save', 'record', 'push', 'register', 'write', 'keep', 'stash', 'fill', 'populate', 'prime', '__setitem__',
+                                           'put_nowait', 'set_many', 'add_entry', 'set_entry', 'put_entry', 'assign')
+READONLY_METHODS = ('get', 'keys', 'values', 'items', 'copy', 'pop', 'popitem', 'clear', 'move_to_end', 'discard', 'remove', 'index', 'count', 'lookup', '__getitem__', '__contains__', 'peek',
+                    'is_set', 'wait', 'close', 'aclose', 'get_nowait', 'invalidate', 'forget', 'evict', 'expire', 'delete', 'join', 'format', 'startswith', 'endswith', 'split', 'strip', 'lower', 'upper',
+                    'encode', 'decode', 'sort', 'reverse')
 APPISH = ('app', 'request.app', 'self.app', 'request.config_dict')
+STARTUP_FUNCS = ('on_startup', 'on_cleanup', '__init__', 'run', 'main', 'async_main')
+# the fields of a status row / status dict the property is about (completion and the counts); cost, attributes, times ... are not
+COMPLETION_FIELDS = frozenset(('state', 'complete', 'n_jobs', 'n_completed', 'n_succeeded', 'n_failed', 'n_cancelled', 'cancelled'))
 
 Atom = Tuple[Any, ...]
 
 
 def _typed(a: Atom) -> Atom:
-    if a[0] in ('dbh',):
+    if a[0] in ('dbh', 'apph'):
         return a
     return (a[0], a[1], True)
 
@@ -1134,6 +1147,27 @@ def memo_decorator(fn: FuncDef) -> Optional[str]:
     return None
 
 
+def _flatten_targets(ts: Sequence[ast.expr]) -> List[ast.expr]:
+    out: List[ast.expr] = []
+    for t in ts:
+        if isinstance(t, (ast.Tuple, ast.List)):
+            out += _flatten_targets(t.elts)
+        elif isinstance(t, ast.Starred):
+            out += _flatten_targets([t.value])
+        else:
+            out.append(t)
+    return out
+
+
+class StoreSite:
+    """One statement that may put a value into state that outlives the invocation."""
+
+    def __init__(self, fn: FuncDef, qual: str, node: ast.AST, roots: Set[str], vals: List[ast.expr], definite: bool):
+        self.fn, self.qual, self.node, self.roots, self.vals, self.definite = fn, qual, node, roots, vals, definite
+        self.typed = False
+        self.dbfed = False   # a value read from the database (by whichever invocation executes the store) goes in
+
+
 class StatusProvenance:
     def __init__(self, m: pf.Module, converters: Sequence[str] = CONVERTERS):
         self.m = m
@@ -1146,29 +1180,158 @@ class StatusProvenance:
         self.readers: Set[int] = set()
         self.direct: Set[int] = set()
         self.typed_roots: Set[str] = set()
+        self.maybe_roots: Set[str] = set()
+        self.dbfed_roots: Set[str] = set()   # written, while requests are served, with values read from the database
+        self.status_lines: Set[int] = set()
+        self.stores: List[StoreSite] = []
+        self.root_class: Dict[str, ast.ClassDef] = {}
         self._module_names: Optional[Dict[str, ast.AST]] = None
+        self._memo: Dict[Tuple[Any, ...], Set[Atom]] = {}
+        self._cuts = 0
+        self._nodes: Dict[int, Tuple[ast.AST, List[ast.AST]]] = {}
+        self._esc: Dict[Tuple[int, int], bool] = {}
+        self._rets: Dict[int, List[ast.AST]] = {}
+        self._appish: Dict[int, bool] = {}
+        self.obj_mode = False   # True while the OBJECT an expression denotes is wanted (store targets): values that merely flowed into it by mutation do not count
+        self.wrappers: Set[int] = set()   # functions a decorator of this module puts around a reader: checked like readers, but they do not make their name a reader name
+        self._loads: Dict[str, int] = {}
+        self._attr_refs: Dict[str, int] = {}
+        for n in ast.walk(m.tree):
+            if isinstance(n, ast.Name) and isinstance(n.ctx, ast.Load):
+                self._loads[n.id] = self._loads.get(n.id, 0) + 1
+            elif isinstance(n, ast.Attribute):
+                self._attr_refs[n.attr] = self._attr_refs.get(n.attr, 0) + 1
+        self.module_defs: Dict[str, ast.AST] = {d.name: d for d in pf._body_defs(m.tree)}
+        self._globals: Dict[int, Set[str]] = {}
+        self.global_rebound: Set[str] = set()
+        for q, f in self.funcs:
+            g = {x for n in self.nodes_of(f) if isinstance(n, ast.Global) for x in n.names}
+            self._globals[id(f)] = g
+            self.global_rebound |= {x for x in g if x in pf.assignments(f)}
+        self._mutations: Dict[int, Dict[str, List[ast.expr]]] = {}
+        self.objattr_roots: Set[str] = self._scan_objattr_roots()
+        self.startup: Set[str] = set(STARTUP_FUNCS)
+        for n in ast.walk(m.tree):
+            if isinstance(n, ast.Call) and (pf.dotted(n.func) or '').endswith(('on_startup.append', 'on_cleanup.append', 'on_shutdown.append')) and n.args and isinstance(n.args[0], ast.Name):
+                self.startup.add(n.args[0].id)
+        self._build_call_index()
         self._compute_readers()
-        self._compute_typed_roots()
-        if self.typed_roots:
-            # a function that answers from a retained object holding status dicts is a status reader too (and so are its callers)
-            grew = False
-            for q, f in self.funcs:
-                if id(f) in self.readers:
+        self._solve()
+
+    def nodes_of(self, fn: ast.AST) -> List[ast.AST]:
+        hit = self._nodes.get(id(fn))
+        if hit is None or hit[0] is not fn:
+            hit = (fn, list(pf.walk_shallow(fn)))
+            self._nodes[id(fn)] = hit
+        return hit[1]
+
+    def calls_of(self, fn: ast.AST) -> List[ast.Call]:
+        return [n for n in self.nodes_of(fn) if isinstance(n, ast.Call)]
+
+    # -- syntactic pre-scans -------------------------------------------------------------------
+    def _scan_objattr_roots(self) -> Set[str]:
+        """`X.attr` for module-level functions / classes X whose attribute is stored to (or into) somewhere in the module: function
+        attributes and class-level containers used as per-process state."""
+        out: Set[str] = set()
+
+        def base(t: ast.AST) -> None:
+            cur = t
+            while isinstance(cur, (ast.Subscript, ast.Attribute)):
+                if isinstance(cur, ast.Attribute) and isinstance(cur.value, ast.Name) and cur.value.id in self.module_defs:
+                    out.add(f'{cur.value.id}.{cur.attr}')
+                    return
+                cur = cur.value
+        for n in ast.walk(self.m.tree):
+            if isinstance(n, ast.Assign):
+                for t in _flatten_targets(n.targets):
+                    base(t)
+            elif isinstance(n, (ast.AugAssign, ast.AnnAssign)):
+                base(n.target)
+            elif isinstance(n, ast.Call) and isinstance(n.func, ast.Attribute) and n.func.attr in STORE_METHODS:
+                base(n.func.value)
+        return out
+
+    def _refs_in(self, scope: ast.AST, name: str) -> Tuple[int, int]:
+        """(loads of the identifier, attribute references .name) inside scope."""
+        if scope is self.m.tree:
+            return self._loads.get(name, 0), self._attr_refs.get(name, 0)
+        a = b = 0
+        for n in ast.walk(scope):
+            if isinstance(n, ast.Name) and n.id == name and isinstance(n.ctx, ast.Load):
+                a += 1
+            elif isinstance(n, ast.Attribute) and n.attr == name:
+                b += 1
+        return a, b
+
+    def _build_call_index(self) -> None:
+        """callee -> call sites (caller, call, is_method) for calls that resolve by scoping; decorator applications as synthetic
+        call sites of the decorator's (or the decorator factory's inner function's) first parameter."""
+        self.sites: Dict[int, List[Tuple[FuncDef, ast.Call, bool]]] = {}
+        for q, g in self.funcs:
+            for c in self.calls_of(g):
+                d = resolve_callable(self.m, g, c)
+                if d is not None:
+                    self.sites.setdefault(id(d), []).append((g, c, isinstance(c.func, ast.Attribute)))
+        self.deco_actuals: Dict[Tuple[int, str], List[FuncDef]] = {}
+        self.deco_of: Dict[int, List[FuncDef]] = {}
+        for q, f in self.funcs:
+            outer = enclosing_funcs(self.m, f)
+            for dec in f.decorator_list:
+                target: Optional[FuncDef] = None
+                dn = dec.func if isinstance(dec, ast.Call) else dec
+                if not isinstance(dn, ast.Name):
                     continue
-                for r in pf.walk_shallow(f):
-                    if isinstance(r, (ast.Return, ast.Yield)) and r.value is not None and any(a[0] == 'ret' and a[2] is True for a in self.prov(f, r.value)):
-                        self.readers.add(id(f))
-                        self.direct.add(id(f))
-                        grew = True
+                D = None
+                for scope in outer:
+                    D = _defs_directly_in(scope).get(dn.id)
+                    if D is not None:
                         break
-            if grew:
-                self._close_readers()
-                self._compute_typed_roots()
+                D = D or _defs_directly_in(self.m.tree).get(dn.id)
+                if D is None:
+                    continue
+                if isinstance(dec, ast.Name):
+                    target = D
+                else:
+                    inner = _defs_directly_in(D)
+                    for r in self.nodes_of(D):
+                        if isinstance(r, ast.Return) and isinstance(r.value, ast.Name) and r.value.id in inner:
+                            target = inner[r.value.id]
+                if target is None:
+                    continue
+                ps = [a.arg for a in target.args.posonlyargs + target.args.args]
+                if ps:
+                    self.deco_actuals.setdefault((id(target), ps[0]), []).append(f)
+                    self.deco_of.setdefault(id(f), []).append(target)
+        self._closed: Dict[int, bool] = {}
+
+    def closed(self, fn: FuncDef) -> bool:
+        """Every call of fn is a call site we know: a private (underscore) or nested function that is referenced only as the callee of
+        resolved calls, carries no decorator and is not ambiguous.  Then its parameters ARE the union of the actual arguments."""
+        hit = self._closed.get(id(fn))
+        if hit is not None:
+            return hit
+        outer = enclosing_funcs(self.m, fn)
+        cls = enclosing_class(self.m, fn)
+        par = self.m.parents().get(fn)
+        while par is not None and not isinstance(par, (ast.FunctionDef, ast.AsyncFunctionDef, ast.ClassDef, ast.Module)):
+            par = self.m.parents().get(par)
+        sites = self.sites.get(id(fn), [])
+        ok = bool(sites) and not fn.decorator_list and not (fn.name.startswith('__') and fn.name.endswith('__'))
+        if ok:
+            if isinstance(par, ast.ClassDef):
+                ok = fn.name.startswith('_') and self._refs_in(self.m.tree, fn.name)[1] == len(sites) and len(self.by_name.get(fn.name, [])) == 1
+            elif outer:
+                scope = outer[0]
+                ok = self._refs_in(scope, fn.name)[0] == len(sites) and sum(1 for d in pf._body_defs(scope) if getattr(d, 'name', None) == fn.name) == 1
+            else:
+                ok = fn.name.startswith('_') and self._refs_in(self.m.tree, fn.name) == (len(sites), 0) and len(self.by_name.get(fn.name, [])) == 1
+        self._closed[id(fn)] = ok
+        return ok
 
     # -- reader closure -------------------------------------------------------------------
     def _compute_readers(self) -> None:
         for q, f in self.funcs:
-            for c in pf.calls_in(f):
+            for c in self.calls_of(f):
                 if (pf.dotted(c.func) or '').split('.')[-1] in self.converters:
                     self.direct.add(id(f))
         self.readers = set(self.direct)
@@ -1182,11 +1345,21 @@ class StatusProvenance:
             for q, f in self.funcs:
                 if id(f) in self.readers:
                     continue
-                for n in pf.walk_shallow(f):
+                for n in self.nodes_of(f):
                     if isinstance(n, ast.Name) and isinstance(n.ctx, ast.Load) and n.id in names and n.id not in assignments(f):
                         self.readers.add(id(f))
                         changed = True
                         break
+        # the wrapper a decorator of this module puts around a reader calls the reader through the decorator's parameter
+        for (tid, pname), decorated in self.deco_actuals.items():
+            if not any(id(f) in self.readers for f in decorated):
+                continue
+            for q, f in self.funcs:
+                if id(f) in self.readers or not (id(f) == tid or any(id(s_) == tid for s_ in enclosing_funcs(self.m, f))):
+                    continue
+                if any(isinstance(n, ast.Name) and n.id == pname and isinstance(n.ctx, ast.Load) for n in self.nodes_of(f)) and (id(f) == tid or pname not in assignments(f)):
+                    self.wrappers.add(id(f))
+        self._memo.clear()
 
     def is_reader_name(self, fn: FuncDef, name: str) -> Optional[FuncDef]:
         for scope in [fn] + enclosing_funcs(self.m, fn):
@@ -1224,49 +1397,168 @@ class StatusProvenance:
             return True
         return False
 
+    @staticmethod
+    def _mutable_expr(e: Optional[ast.AST]) -> bool:
+        if e is None:
+            return False
+        if isinstance(e, (ast.Dict, ast.List, ast.Set, ast.ListComp, ast.DictComp, ast.SetComp)):
+            return True
+        return isinstance(e, ast.Call) and not StatusProvenance._immutable_expr(e)
+
+    def is_typed(self, a: Atom) -> bool:
+        """May the value carry batch / job-group status?"""
+        if a[0] == 'ret':
+            return a[2] is True or a[1] in self.typed_roots
+        if a[0] == 'db':
+            return a[2] is True or a[1] in self.status_lines
+        return len(a) == 3 and a[2] is True
+
     # -- provenance -------------------------------------------------------------------
     def appish(self, fn: FuncDef, e: ast.expr) -> bool:
-        t = pf.nsrc(e)
-        if t in APPISH:
-            if isinstance(e, ast.Name):
-                defs = assignments(fn).get(e.id, [])
-                return all(isinstance(d, ast.arg) or (isinstance(d, ast.expr) and pf.nsrc(d) in APPISH) for d in defs) if defs else True
-            return True
-        return False
+        if isinstance(e, ast.Name):
+            if e.id != 'app':
+                return False
+            hit = self._appish.get(id(fn))
+            if hit is None:
+                defs = assignments(fn).get('app', [])
+                hit = all(isinstance(d, ast.arg) or (isinstance(d, ast.expr) and pf.dotted(d) in APPISH) for d in defs) if defs else True
+                self._appish[id(fn)] = hit
+            return hit
+        return isinstance(e, ast.Attribute) and e.attr in ('app', 'config_dict') and pf.dotted(e) in APPISH
 
-    def prov(self, fn: FuncDef, e: ast.AST, penv: Optional[Dict[str, Set[Atom]]] = None, depth: int = 0, busy: Optional[Set[Tuple[int, str]]] = None) -> Set[Atom]:
-        penv = penv or {}
+    def _app_entry(self, key: ast.expr) -> Set[Atom]:
+        if pf.const_str(key) == 'db':
+            return {('dbh',)}
+        return {('ret', f'app[{pf.nsrc(key)}]', False)}
+
+    def mutations(self, fn: FuncDef) -> Dict[str, List[Tuple[ast.AST, Optional[ast.expr], ast.expr]]]:
+        """local name -> (statement, target or None, value) for values that flow INTO the object it names by mutation: x[k] = v, x.attr = v,
+        x.update(v), x.append(v) ..."""
+        hit = self._mutations.get(id(fn))
+        if hit is not None:
+            return hit
+        out: Dict[str, List[Tuple[ast.AST, Optional[ast.expr], ast.expr]]] = {}
+
+        def base_name(t: ast.AST) -> Optional[str]:
+            cur = t
+            while isinstance(cur, (ast.Subscript, ast.Attribute)):
+                cur = cur.value
+            return cur.id if isinstance(cur, ast.Name) else None
+        for n in self.nodes_of(fn):
+            if isinstance(n, (ast.Assign, ast.AugAssign, ast.AnnAssign)) and n.value is not None:
+                for t in _flatten_targets(n.targets if isinstance(n, ast.Assign) else [n.target]):
+                    if isinstance(t, (ast.Subscript, ast.Attribute)):
+                        b = base_name(t)
+                        if b is not None:
+                            out.setdefault(b, []).append((n, t, n.value))
+            elif isinstance(n, ast.Call) and isinstance(n.func, ast.Attribute) and n.func.attr in STORE_METHODS:
+                b = base_name(n.func.value)
+                if b is not None:
+                    for v in list(n.args) + [k.value for k in n.keywords]:
+                        out.setdefault(b, []).append((n, None, v))
+        self._mutations[id(fn)] = out
+        return out
+
+    # -- field sensitivity at the two ends where keys are constants -------------------------------------
+    def const_keys(self, fn: FuncDef, sl: ast.AST) -> Optional[Set[str]]:
+        """The string keys a subscript may use, when they are constants: 'k', or a loop / comprehension variable over a literal tuple."""
+        k = pf.const_str(sl)
+        if k is not None:
+            return {k}
+        if isinstance(sl, ast.Name):
+            keys: Set[str] = set()
+            defs = [d for scope in [fn] + enclosing_funcs(self.m, fn) for d in assignments(scope).get(sl.id, [])]
+            if not defs:
+                return None
+            for d in defs:
+                it = d.iter if isinstance(d, (ast.For, ast.AsyncFor, ast.comprehension)) and isinstance(d.target, ast.Name) else None
+                if isinstance(it, ast.Name) and it.id in self.module_names() and it.id not in self.global_rebound:
+                    it = self.module_names()[it.id]
+                if not isinstance(it, (ast.Tuple, ast.List, ast.Set)) or not it.elts or not all(pf.const_str(x) is not None for x in it.elts):
+                    return None
+                keys |= {pf.const_str(x) for x in it.elts}
+            return keys
+        return None
+
+    def is_status_obj(self, fn: FuncDef, e: ast.AST, busy: Optional[Set[Tuple[Any, ...]]] = None) -> bool:
+        """Is the local name e, evidently, ONE status row / ONE status dict (not a container of them): every definition is the result of a
+        converter, a fetchone on the database handle, or the loop variable over a fetchall."""
+        if not isinstance(e, ast.Name):
+            return False
+        defs = assignments(fn).get(e.id)
+        if not defs:
+            return False
+
+        def on_db(c: ast.AST, methods: Tuple[str, ...]) -> bool:
+            if isinstance(c, ast.Await):
+                c = c.value
+            return isinstance(c, ast.Call) and isinstance(c.func, ast.Attribute) and c.func.attr in methods and ('dbh',) in self.prov(fn, c.func.value, 'exp', busy)
+        for d in defs:
+            v = d.value if isinstance(d, ast.Await) else d
+            if isinstance(v, ast.Call):
+                if (pf.dotted(v.func) or '').split('.')[-1] in self.converters or on_db(v, ('select_and_fetchone', 'execute_and_fetchone')):
+                    continue
+                return False
+            if isinstance(d, (ast.For, ast.AsyncFor, ast.comprehension)) and isinstance(d.target, ast.Name) and on_db(d.iter, ('select_and_fetchall', 'execute_and_fetchall')):
+                continue
+            return False
+        return True
+
+    def off_topic(self, fn: FuncDef, t: ast.AST, busy: Optional[Set[Tuple[Any, ...]]] = None) -> bool:
+        """t = <status row / dict>[k] with every possible k a constant outside the completion fields (cost, attributes, ...)."""
+        if not (isinstance(t, ast.Subscript) and isinstance(t.value, ast.Name)):
+            return False
+        keys = self.const_keys(fn, t.slice)
+        return keys is not None and not (keys & COMPLETION_FIELDS) and self.is_status_obj(fn, t.value, busy)
+
+    def prov(self, fn: FuncDef, e: ast.AST, mode: str = 'exp', busy: Optional[Set[Tuple[Any, ...]]] = None) -> Set[Atom]:
+        """Provenance atoms of expression e of function fn.  mode 'exp': parameters are expanded to the actual arguments of the known call
+        sites (context-insensitive; top-level queries).  mode 'sum': parameters stay symbolic ('param' atoms) - used for function summaries,
+        which a call site instantiates with its own actuals (context-sensitive)."""
         busy = busy if busy is not None else set()
-        P = lambda x: self.prov(fn, x, penv, depth, busy)  # noqa: E731
-        if e is None or isinstance(e, (ast.Constant, ast.Lambda)):
+        P = lambda x: self.prov(fn, x, mode, busy)  # noqa: E731
+        if e is None or isinstance(e, ast.Constant):
             return set()
+        if isinstance(e, ast.Lambda):
+            out = set()
+            bound = {a.arg for a in e.args.posonlyargs + e.args.args + e.args.kwonlyargs}
+            for n in ast.walk(e.body):
+                if isinstance(n, ast.Name) and isinstance(n.ctx, ast.Load) and n.id not in bound:
+                    out |= {a for a in P(n) if a[0] in ('fref', 'ret', 'apph')}
+            return out
         if isinstance(e, ast.Await):
             return P(e.value)
         if isinstance(e, ast.Name):
-            return self._name(fn, e.id, penv, depth, busy)
+            if self.appish(fn, e):
+                return {('apph',)}
+            return self._name(fn, e.id, mode, busy)
         if isinstance(e, ast.Subscript):
-            if self.appish(fn, e.value):
-                k = pf.const_str(e.slice)
-                if k == 'db':
-                    return {('dbh',)}
-                root = f'app[{pf.nsrc(e.slice)}]'
-                return {('ret', root, root in self.typed_roots)}
-            return {a for a in P(e.value) if a[0] != 'dbh'} | ({('dbh',)} if False else set())
+            if self.off_topic(fn, e, busy):
+                return {('dbf', a[1], False) for a in P(e.value) if a[0] == 'db'}
+            base = {('apph',)} if self.appish(fn, e.value) else P(e.value)
+            out = {a for a in base if a[0] not in ('dbh', 'apph')}
+            if ('apph',) in base:
+                out |= self._app_entry(e.slice)
+            return out
         if isinstance(e, ast.Attribute):
-            if pf.nsrc(e) in APPISH:
-                return set()
+            if self.appish(fn, e):
+                return {('apph',)}
             if isinstance(e.value, ast.Name) and e.value.id in ('self', 'cls'):
-                root = f'{e.value.id}.{e.attr}'
-                return {('ret', root, root in self.typed_roots)}
-            return P(e.value)
+                return {('ret', f'{e.value.id}.{e.attr}', False)}
+            if isinstance(e.value, ast.Name) and f'{e.value.id}.{e.attr}' in self.objattr_roots and not any(e.value.id in assignments(s) for s in [fn] + enclosing_funcs(self.m, fn)):
+                return {('ret', f'{e.value.id}.{e.attr}', False)}
+            base = P(e.value)
+            if ('dbh',) in base:
+                return {('ret', f'attribute {e.attr} of the database handle', False)} | {a for a in base if a[0] != 'dbh'}
+            return base
         if isinstance(e, ast.Call):
-            return self._call(fn, e, penv, depth, busy)
+            return self._call(fn, e, mode, busy)
         if isinstance(e, (ast.ListComp, ast.SetComp, ast.GeneratorExp)):
             return P(e.elt)
         if isinstance(e, ast.DictComp):
             return P(e.key) | P(e.value)
         if isinstance(e, ast.Dict):
-            out: Set[Atom] = set()
+            out = set()
             for k, v in zip(e.keys, e.values):
                 out |= P(v)
             return out
@@ -1284,37 +1576,99 @@ class StatusProvenance:
                 out |= P(c)
         return out
 
-    def _name(self, fn: FuncDef, name: str, penv: Dict[str, Set[Atom]], depth: int, busy: Set[Tuple[int, str]]) -> Set[Atom]:
-        if name in penv:
-            return set(penv[name])
-        key = (id(fn), name)
-        if key in busy:
+    def _escapes(self, scope: FuncDef, fn: FuncDef) -> bool:
+        """Does the function nested in `scope` on the way to fn outlive the invocation of scope: scope returns a reference to it
+        (decorators, factories), not merely its result."""
+        key = (id(scope), id(fn))
+        hit = self._esc.get(key)
+        if hit is not None:
+            return hit
+        chain = [fn] + enclosing_funcs(self.m, fn)
+        res = False
+        if scope in chain and chain.index(scope) > 0:
+            child = chain[chain.index(scope) - 1]
+            for r in self.returns_of(scope):
+                callees = {id(c.func) for c in ast.walk(r.value) if isinstance(c, ast.Call)}
+                if any(isinstance(n, ast.Name) and n.id == child.name and id(n) not in callees for n in ast.walk(r.value)):
+                    res = True
+        self._esc[key] = res
+        return res
+
+    def returns_of(self, fn: FuncDef) -> List[ast.AST]:
+        hit = self._rets.get(id(fn))
+        if hit is None:
+            hit = [r for r in self.nodes_of(fn) if isinstance(r, (ast.Return, ast.Yield)) and r.value is not None]
+            self._rets[id(fn)] = hit
+        return hit
+
+    def _name(self, fn: FuncDef, name: str, mode: str, busy: Set[Tuple[Any, ...]]) -> Set[Atom]:
+        key = (id(fn), name, mode, self.obj_mode)
+        if key in self._memo:
+            return set(self._memo[key])
+        if key in busy or len(busy) > 60:
+            self._cuts += 1
             return set()
         busy.add(key)
+        cuts0 = self._cuts
         try:
-            for scope in [fn] + enclosing_funcs(self.m, fn):
-                defs = assignments(scope).get(name)
-                if defs:
-                    out: Set[Atom] = set()
-                    for d in defs:
-                        out |= self._def(scope, name, d, penv if scope is fn else {}, depth, busy)
-                    return out
-                d2 = _defs_directly_in(scope).get(name)
-                if d2 is not None:
-                    return {('fref', d2.name, True)} if id(d2) in self.readers else set()
-            d3 = _defs_directly_in(self.m.tree).get(name)
-            if d3 is not None:
-                return {('fref', d3.name, True)} if id(d3) in self.readers else set()
-            mv = self.module_names().get(name)
-            if mv is not None:
-                if self._immutable_expr(mv):
-                    return set()
-                return {('ret', name, name in self.typed_roots)}
-            return set()  # imported name / builtin
+            out = self._name_uncached(fn, name, mode, busy)
         finally:
             busy.discard(key)
+        if self._cuts == cuts0:
+            self._memo[key] = set(out)
+        return out
 
-    def _def(self, scope: FuncDef, name: str, d: ast.AST, penv: Dict[str, Set[Atom]], depth: int, busy: Set[Tuple[int, str]]) -> Set[Atom]:
+    def _name_uncached(self, fn: FuncDef, name: str, mode: str, busy: Set[Tuple[Any, ...]]) -> Set[Atom]:
+        for scope in [fn] + enclosing_funcs(self.m, fn):
+            defs = assignments(scope).get(name)
+            if name in self._globals.get(id(scope), ()):
+                out: Set[Atom] = {('ret', name, False)}
+                for d in defs or []:
+                    out |= self._def(scope, name, d, mode, busy)
+                return out
+            if defs:
+                out = set()
+                for d in defs:
+                    out |= self._def(scope, name, d, mode, busy)
+                if not self.obj_mode:
+                    for _, t, v in self.mutations(scope).get(name, []):
+                        if t is not None and self.off_topic(scope, t, busy):
+                            continue
+                        out |= {a for a in self.prov(scope, v, mode, busy) if a[0] not in ('dbh', 'apph')}
+                if scope is not fn and self._escapes(scope, fn) and any(not isinstance(d, ast.arg) for d in defs):
+                    out.add(('ret', f'{name} (variable of {scope.name}, shared by every call of the function it returns)', False))
+                return out
+            d2 = _defs_directly_in(scope).get(name)
+            if d2 is not None:
+                return {('fref', d2.name, True)} if id(d2) in self.readers else set()
+        d3 = _defs_directly_in(self.m.tree).get(name)
+        if d3 is not None:
+            return {('fref', d3.name, True)} if id(d3) in self.readers else set()
+        mv = self.module_names().get(name)
+        if mv is not None or name in self.global_rebound:
+            if name not in self.global_rebound and self._immutable_expr(mv):
+                return set()
+            return {('ret', name, False)}
+        return set()  # imported name / builtin
+
+    def _default_of(self, fn: FuncDef, name: str) -> Optional[ast.expr]:
+        a = fn.args
+        pos = a.posonlyargs + a.args
+        for x, d in zip(reversed(pos), reversed(a.defaults)):
+            if x.arg == name:
+                return d
+        for x, d in zip(a.kwonlyargs, a.kw_defaults):
+            if x.arg == name:
+                return d
+        return None
+
+    def _default_atoms(self, fn: FuncDef, name: str) -> Set[Atom]:
+        d = self._default_of(fn, name)
+        if self._mutable_expr(d):
+            return {('ret', f'{name} (default value of a parameter of {fn.name}: one object for the whole process)', False)}
+        return set()
+
+    def _def(self, scope: FuncDef, name: str, d: ast.AST, mode: str, busy: Set[Tuple[Any, ...]]) -> Set[Atom]:
         if isinstance(d, ast.arg):
             # the first parameter of a function decorated with @transaction(db) is a transaction on the database handle
             for dec in scope.decorator_list:
@@ -1322,23 +1676,102 @@ class StatusProvenance:
                     params = [a.arg for a in scope.args.posonlyargs + scope.args.args]
                     if params and params[0] == name:
                         outer = enclosing_funcs(self.m, scope)
-                        if ('dbh',) in self.prov(outer[0] if outer else scope, dec.args[0], {}, depth, busy):
+                        if ('dbh',) in self.prov(outer[0] if outer else scope, dec.args[0], 'exp', busy):
                             return {('dbh',)}
-            return {('param', name, False)}
+            ann = d.annotation
+            if ann is not None and ((pf.dotted(ann) or pf.const_str(ann) or '').split('.')[-1] in DB_TYPES):
+                return {('dbh',)}
+            if name in ('self', 'cls') or mode == 'sum':
+                return {('param', name, False)}
+            # WHO calls: the parameter is whatever the call sites pass (defaults are added where the call leaves the parameter out)
+            out: Set[Atom] = set()
+            for f in self.deco_actuals.get((id(scope), name), []):
+                if id(f) in self.readers:
+                    out.add(('fref', f.name, True))
+            for g, c, is_m in self.sites.get(id(scope), []):
+                b = bind_args(scope, c, is_m)
+                if b is None:
+                    for a in list(c.args) + [k.value for k in c.keywords]:
+                        out |= self.prov(g, a, 'exp', busy)
+                elif name in b:
+                    out |= self._default_atoms(scope, name) if b[name] is self._default_of(scope, name) else self.prov(g, b[name], 'exp', busy)
+            if not self.closed(scope):
+                out.add(('param', name, False))
+                out |= self._default_atoms(scope, name)
+            return out
         if isinstance(d, ast.expr):
-            return self.prov(scope, d, penv, depth, busy)
-        if isinstance(d, ast.Assign):
-            return self.prov(scope, d.value, penv, depth, busy)
-        if isinstance(d, ast.AugAssign):
-            return self.prov(scope, d.value, penv, depth, busy)
+            return self.prov(scope, d, mode, busy)
+        if isinstance(d, (ast.Assign, ast.AugAssign)):
+            return self.prov(scope, d.value, mode, busy)
         if isinstance(d, (ast.For, ast.AsyncFor, ast.comprehension)):
-            return self.prov(scope, d.iter, penv, depth, busy)
+            return self.prov(scope, d.iter, mode, busy)
         if isinstance(d, ast.withitem):
-            return self.prov(scope, d.context_expr, penv, depth, busy)
+            return self.prov(scope, d.context_expr, mode, busy)
         return {('unk', f'binding of {name}', False)}
 
-    def _call(self, fn: FuncDef, e: ast.Call, penv: Dict[str, Set[Atom]], depth: int, busy: Set[Tuple[int, str]]) -> Set[Atom]:
-        P = lambda x: self.prov(fn, x, penv, depth, busy)  # noqa: E731
+    # -- function summaries -------------------------------------------------------------------
+    def summary(self, d: FuncDef, busy: Set[Tuple[Any, ...]]) -> Set[Atom]:
+        """What d returns, its own parameters symbolic: ('param', p, typed) = whatever the caller passes for p (through a converter when typed);
+        ('dbif', line, p) = the result of a query executed by this invocation IF p is the database handle."""
+        key = ('summary', id(d), self.obj_mode)
+        if key in self._memo:
+            return set(self._memo[key])
+        if key in busy:
+            self._cuts += 1
+            return set()
+        busy.add(key)
+        cuts0 = self._cuts
+        try:
+            out: Set[Atom] = set()
+            for r in self.returns_of(d):
+                out |= self.prov(d, r.value, 'sum', busy)
+        finally:
+            busy.discard(key)
+        if self._cuts == cuts0:
+            self._memo[key] = set(out)
+        return out
+
+    def _apply(self, fn: FuncDef, d: FuncDef, e: ast.Call, is_method: bool, mode: str, busy: Set[Tuple[Any, ...]]) -> Set[Atom]:
+        """The summary of d instantiated with the actual arguments of call e in fn."""
+        summ = self.summary(d, busy)
+        formals = {x.arg for x in d.args.posonlyargs + d.args.args + d.args.kwonlyargs} | ({d.args.vararg.arg} if d.args.vararg else set()) | ({d.args.kwarg.arg} if d.args.kwarg else set())
+        need = {a[1] for a in summ if a[0] == 'param' and a[1] in formals} | {a[2] for a in summ if a[0] == 'dbif' and a[2] in formals}
+        env: Dict[str, Set[Atom]] = {}
+        if need:
+            b = bind_args(d, e, is_method)
+            if b is not None:
+                for k in need:
+                    if k in b:
+                        env[k] = self._default_atoms(d, k) if b[k] is self._default_of(d, k) else self.prov(fn, b[k], mode, busy)
+            else:
+                allp: Set[Atom] = set()
+                for a in list(e.args) + [k.value for k in e.keywords]:
+                    allp |= self.prov(fn, a, mode, busy)
+                env = {k: set(allp) for k in need}
+        out: Set[Atom] = set()
+        for a in summ:
+            if a[0] == 'param' and a[1] in formals and not (is_method and a[1] in ('self', 'cls')):
+                for x in env.get(a[1], {('unk', f'argument {a[1]} of {d.name}', False)}):
+                    out.add(_typed(x) if a[2] else x)
+            elif a[0] == 'dbif' and a[2] in formals:
+                act = env.get(a[2], set())
+                if ('dbh',) in act:
+                    out.add(('db', a[1], False))
+                out |= {x for x in act if x[0] != 'dbh'}
+            else:
+                out.add(a)
+        return out
+
+    def _methods_on(self, roots: Sequence[str], attr: str) -> List[FuncDef]:
+        out = []
+        for r in roots:
+            c = self.root_class.get(r)
+            if c is not None:
+                out += [x for x in c.body if isinstance(x, (ast.FunctionDef, ast.AsyncFunctionDef)) and x.name == attr]
+        return out
+
+    def _call(self, fn: FuncDef, e: ast.Call, mode: str, busy: Set[Tuple[Any, ...]]) -> Set[Atom]:
+        P = lambda x: self.prov(fn, x, mode, busy)  # noqa: E731
         f = e.func
         name = pf.dotted(f) or ''
         args = list(e.args) + [k.value for k in e.keywords]
@@ -1350,12 +1783,29 @@ class StatusProvenance:
                 if f.attr in DB_METHODS:
                     return {('db', e.lineno, False)}
                 return {('dbh',)}  # db.start(), tx.<other>: still the handle
+            if f.attr in DB_METHODS and mode == 'sum':
+                ps = [a for a in recv if a[0] == 'param']
+                if ps:
+                    return {('dbif', e.lineno, a[1]) for a in ps} | {a for a in recv if a[0] != 'param'}
+            if ('apph',) in recv:
+                if f.attr in ('get', 'setdefault', '__getitem__', 'pop') and e.args:
+                    return self._app_entry(e.args[0]) | {a for a in recv if a[0] == 'ret'}
             ret = {a for a in recv if a[0] == 'ret'}
             if ret:
-                return ret  # any method of a retained object answers from retained state
+                out = set(ret)  # any method of a retained object answers from retained state
+                for d in self._methods_on(sorted(a[1] for a in ret), f.attr):
+                    out |= {a for a in self._apply(fn, d, e, True, mode, busy) if a[0] != 'dbh'}
+                return out
+            d = resolve_callable(self.m, fn, e)  # self.method(...)
+            if d is not None:
+                out = self._apply(fn, d, e, True, mode, busy)
+                mdec = memo_decorator(d)
+                if mdec:
+                    out.add(('ret', f'results remembered by @{mdec} on {d.name}', any(self.is_typed(a) for a in out)))
+                return out
             out = {a for a in recv if a[0] != 'dbh'}
             for a in args:
-                out |= P(a)
+                out |= {x for x in P(a) if x[0] != 'dbh'}
             return out
         # plain call
         fatoms = P(f) if isinstance(f, ast.Name) else set()
@@ -1369,73 +1819,170 @@ class StatusProvenance:
                         out.add(('ret', f'results remembered by @{mdec} on {d.name}', True))
             return out
         d = resolve_callable(self.m, fn, e)
-        if d is not None and depth < 2:
+        if d is not None:
             mdec = memo_decorator(d)
-            b = bind_args(d, e, False)
-            sub_env: Dict[str, Set[Atom]] = {}
-            if b is not None:
-                sub_env = {k: P(v) for k, v in b.items()}
-            else:
-                allp: Set[Atom] = set()
-                for a in args:
-                    allp |= P(a)
-                sub_env = {x.arg: set(allp) for x in d.args.posonlyargs + d.args.args + d.args.kwonlyargs}
-                if d.args.vararg:
-                    sub_env[d.args.vararg.arg] = set(allp)
-                if d.args.kwarg:
-                    sub_env[d.args.kwarg.arg] = set(allp)
-            out = set()
-            for r in pf.walk_shallow(d):
-                if isinstance(r, ast.Return) and r.value is not None:
-                    out |= self.prov(d, r.value, sub_env, depth + 1, busy)
-                elif isinstance(r, ast.Yield) and r.value is not None:
-                    out |= self.prov(d, r.value, sub_env, depth + 1, busy)
+            out = self._apply(fn, d, e, False, mode, busy)
             if mdec:
-                out.add(('ret', f'results remembered by @{mdec} on {d.name}', any(a[-1] is True for a in out if len(a) == 3)))
+                out.add(('ret', f'results remembered by @{mdec} on {d.name}', any(self.is_typed(a) for a in out)))
             return out
-        out = set()
+        out = {a for a in fatoms if a[0] in ('ret', 'param')}  # a callable kept in retained state / passed in
         for a in args:
             out |= {x for x in P(a) if x[0] != 'dbh'}
         return out
 
-    # -- which retained roots hold status values -----------------------------------------------
-    def _compute_typed_roots(self) -> None:
-        for _ in range(3):
-            before = set(self.typed_roots)
-            for q, fn in self.funcs:
-                for n in pf.walk_shallow(fn):
-                    roots: Set[str] = set()
-                    vals: List[ast.expr] = []
-                    if isinstance(n, ast.Assign):
-                        for t in n.targets:
-                            if isinstance(t, ast.Subscript):
-                                if self.appish(fn, t.value):
-                                    roots.add(f'app[{pf.nsrc(t.slice)}]')
-                                else:
-                                    roots |= {a[1] for a in self.prov(fn, t.value) if a[0] == 'ret'}
-                                vals.append(n.value)
-                            elif isinstance(t, ast.Attribute) and isinstance(t.value, ast.Name) and t.value.id in ('self', 'cls'):
-                                roots.add(f'{t.value.id}.{t.attr}')
-                                vals.append(n.value)
-                    elif isinstance(n, ast.Call) and isinstance(n.func, ast.Attribute) and n.func.attr in CONTAINER_STORE_METHODS:
-                        roots |= {a[1] for a in self.prov(fn, n.func.value) if a[0] == 'ret'}
-                        vals += list(n.args) + [k.value for k in n.keywords]
-                    if not roots or not vals:
+    # -- which retained roots hold status values: who may store ---------------------------------------
+    def obj_prov(self, fn: FuncDef, e: ast.expr) -> Set[Atom]:
+        """Provenance of the OBJECT e denotes (what is it a part / an alias of), not of everything that was put into it."""
+        self.obj_mode = True
+        try:
+            return self.prov(fn, e)
+        finally:
+            self.obj_mode = False
+
+    def _ret_roots(self, fn: FuncDef, e: ast.expr) -> Set[str]:
+        return {a[1] for a in self.obj_prov(fn, e) if a[0] == 'ret'}
+
+    def _target_roots(self, fn: FuncDef, t: ast.expr) -> Set[str]:
+        if isinstance(t, ast.Name):
+            return {t.id} if t.id in self._globals.get(id(fn), ()) else set()
+        if isinstance(t, ast.Subscript):
+            base = {('apph',)} if self.appish(fn, t.value) else self.obj_prov(fn, t.value)
+            out = {a[1] for a in base if a[0] == 'ret'}
+            if ('apph',) in base and pf.const_str(t.slice) != 'db':
+                out.add(f'app[{pf.nsrc(t.slice)}]')
+            return out
+        if isinstance(t, ast.Attribute):
+            if isinstance(t.value, ast.Name) and t.value.id in ('self', 'cls'):
+                return {f'{t.value.id}.{t.attr}'}
+            if isinstance(t.value, ast.Name) and f'{t.value.id}.{t.attr}' in self.objattr_roots:
+                return {f'{t.value.id}.{t.attr}'}
+            return self._ret_roots(fn, t.value)
+        return set()
+
+    def _collect_stores(self) -> None:
+        self.stores = []
+        for q, fn in self.funcs:
+            for n in self.nodes_of(fn):
+                if isinstance(n, (ast.Assign, ast.AugAssign, ast.AnnAssign)) and n.value is not None:
+                    for t in _flatten_targets(n.targets if isinstance(n, ast.Assign) else [n.target]):
+                        roots = self._target_roots(fn, t)
+                        if roots:
+                            self.stores.append(StoreSite(fn, q, n, roots, [n.value], True))
+                elif isinstance(n, ast.Call) and isinstance(n.func, ast.Attribute) and n.func.attr not in READONLY_METHODS and n.func.attr not in DB_METHODS:
+                    vals = list(n.args) + [k.value for k in n.keywords]
+                    if not vals:
                         continue
+                    recv = self.obj_prov(fn, n.func.value)
+                    roots = {a[1] for a in recv if a[0] == 'ret'}
+                    if ('apph',) in recv and n.func.attr == 'setdefault' and len(n.args) == 2:
+                        roots, vals = {f'app[{pf.nsrc(n.args[0])}]'}, [n.args[1]]
+                    if roots:
+                        self.stores.append(StoreSite(fn, q, n, roots, vals, n.func.attr in STORE_METHODS))
+                elif isinstance(n, ast.Call) and isinstance(n.func, ast.Name) and len(n.args) + len(n.keywords) >= 2 and resolve_callable(self.m, fn, n) is None \
+                        and n.func.id not in self.module_defs and n.func.id not in assignments(fn):
+                    # a retained container handed, together with other values, to a function defined elsewhere: it may put them in
+                    vals = list(n.args) + [k.value for k in n.keywords]
+                    conts = [(v, {a[1] for a in self.obj_prov(fn, v) if a[0] == 'ret'}) for v in vals if isinstance(v, (ast.Name, ast.Subscript, ast.Attribute))]
+                    for v, roots in conts:
+                        if roots:
+                            self.stores.append(StoreSite(fn, q, n, roots, [x for x in vals if x is not v], False))
+
+    def _module_class(self, fn: FuncDef, e: ast.AST) -> Optional[ast.ClassDef]:
+        if isinstance(e, ast.Await):
+            e = e.value
+        if isinstance(e, ast.Call) and isinstance(e.func, ast.Name):
+            c = self.module_defs.get(e.func.id)
+            if isinstance(c, ast.ClassDef) and not any(e.func.id in assignments(s) for s in [fn] + enclosing_funcs(self.m, fn)):
+                return c
+        return None
+
+    def _solve(self) -> None:
+        """Fixpoint over: the store sites (which retained root, which values), the classes of retained objects (their methods become
+        call sites), the roots that may hold a status, and the functions that answer from such a root (they are readers too)."""
+        for _ in range(4):
+            before = (len(self.readers), len(self.typed_roots), len(self.maybe_roots), len(self.root_class), len(self.status_lines))
+            self._collect_stores()
+            # module-level objects: X = C(...)
+            for nm, v in self.module_names().items():
+                c = self.module_defs.get(v.func.id) if isinstance(v, ast.Call) and isinstance(v.func, ast.Name) else None
+                if isinstance(c, ast.ClassDef):
+                    self.root_class.setdefault(nm, c)
+            n_rc = len(self.root_class)
+            for s in self.stores:
+                if isinstance(s.node, (ast.Assign, ast.AnnAssign)):
+                    c = self._module_class(s.fn, s.node.value)
+                    if c is not None:
+                        for r in s.roots:
+                            self.root_class.setdefault(r, c)
+            if len(self.root_class) != n_rc:
+                self._memo.clear()
+            if self.root_class:
+                meths = {x.name for c in self.root_class.values() for x in c.body if isinstance(x, (ast.FunctionDef, ast.AsyncFunctionDef))}
+                grew = False
+                for q, g in self.funcs:
+                    for c in self.calls_of(g):
+                        if isinstance(c.func, ast.Attribute) and c.func.attr in meths and not (isinstance(c.func.value, ast.Name) and c.func.value.id in ('self', 'cls')):
+                            for d in self._methods_on(sorted(self._ret_roots(g, c.func.value)), c.func.attr):
+                                lst = self.sites.setdefault(id(d), [])
+                                if not any(x[1] is c for x in lst):
+                                    lst.append((g, c, True))
+                                    grew = True
+                if grew:
+                    self._memo.clear()
+                    self._closed.clear()
+                    self._collect_stores()
+            # rows that feed a converter are status records
+            for q, fn in self.funcs:
+                for c in self.calls_of(fn):
+                    if (pf.dotted(c.func) or '').split('.')[-1] in self.converters and c.args:
+                        self.status_lines |= {a[1] for a in self.prov(fn, c.args[0]) if a[0] == 'db'}
+            for _ in range(4):
+                n0 = len(self.typed_roots) + len(self.maybe_roots)
+                for s in self.stores:
                     typed = False
-                    for v in vals:
-                        for a in self.prov(fn, v):
-                            if len(a) == 3 and a[2] is True:
-                                typed = True
-                        # a loader handed to a cache object: Cache(_get_batch, ...)
+                    for v in s.vals:
+                        atoms = self.prov(s.fn, v)
+                        if any(self.is_typed(a) for a in atoms):
+                            typed = True
+                        # a loader handed to a cache object: Cache(_get_batch, ...), Cache(lambda k: _get_batch(app, k)), functools.partial(_get_batch, app)
                         if isinstance(v, ast.Call):
                             for x in list(v.args) + [k.value for k in v.keywords]:
-                                if any(a[0] == 'fref' for a in self.prov(fn, x)):
+                                if any(a[0] == 'fref' for a in self.prov(s.fn, x)):
                                     typed = True
+                    s.typed = typed
+                    s.dbfed = any(a[0] == 'db' for v in s.vals for a in self.prov(s.fn, v))
+                    if s.dbfed and s.definite and not any(p in self.startup for p in s.qual.split('.')):
+                        self.dbfed_roots |= s.roots
                     if typed:
-                        self.typed_roots |= roots
-            if self.typed_roots == before:
+                        if s.definite:
+                            self.typed_roots |= s.roots
+                        else:
+                            self.maybe_roots |= s.roots
+                if len(self.typed_roots) + len(self.maybe_roots) == n0:
+                    break
+            # a function that answers from a retained object holding status dicts is a status reader too (and so are its callers)
+            grew = False
+            if self.typed_roots:
+                for q, f in self.funcs:
+                    if id(f) in self.readers:
+                        continue
+                    for r in self.nodes_of(f):
+                        if isinstance(r, (ast.Return, ast.Yield)) and r.value is not None and any(a[0] == 'ret' and self.is_typed(a) for a in self.prov(f, r.value)):
+                            self.readers.add(id(f))
+                            self.direct.add(id(f))
+                            grew = True
+                            break
+            if grew:
+                self._close_readers()
+            if before == (len(self.readers), len(self.typed_roots), len(self.maybe_roots), len(self.root_class), len(self.status_lines)):
                 break
+
+    def store_sites_of(self, root: str) -> List[StoreSite]:
+        return [s for s in self.stores if root in s.roots]
+
+    def startup_only(self, root: str) -> bool:
+        """Every store into the root happens while the process starts (configuration), never while it serves requests."""
+        return all(any(p in self.startup for p in s.qual.split('.')) for s in self.store_sites_of(root) if s.definite) and root not in self.maybe_roots
 
 
 class StatusFinding:
@@ -1443,46 +1990,151 @@ class StatusFinding:
         self.status, self.construct, self.message, self.line = status, construct, message, line
 
 
-def check_status_provenance(m: pf.Module) -> Tuple[List[StatusFinding], StatusProvenance]:
+STALE = ('other front-end replicas (batch/deployment.yaml runs several) commit updates, cancel or complete jobs without this process seeing it, and a read that was in flight when the entry was dropped puts the old answer back: '
+         'e.g. a batch completes and is polled here, an update with jobs is committed through another replica (commit_batch_update re-opens it: state running, n_jobs increased), and this process keeps answering '
+         'complete / the old n_jobs, n_completed - a client in wait() returns before the jobs it has just submitted have run')
+
+
+def _where_stored(sp: StatusProvenance, root: str) -> str:
+    ss = [s for s in sp.store_sites_of(root) if s.typed] or sp.store_sites_of(root)
+    if not ss:
+        return ''
+    s = ss[0]
+    return f' (stored by `{pf.nsrc(s.node)[:70]}` in {s.qual})'
+
+
+def _validated_by_fresh_read(sp: StatusProvenance, fn: FuncDef, node: ast.AST) -> bool:
+    """Is the statement control-dependent on a test that looks at a database row read by this invocation (a remembered answer that is
+    re-validated against the database before it is served)?  Only definitions that can reach the test count (textually before it, or
+    anywhere when the test sits in a loop): `x = memo.get(k); if x is not None: return x; ...; x = convert(row)` is not a validation."""
+    par = sp.m.parents()
+    cur = node
+    p = par.get(cur)
+    chain = []
+    while p is not None and p is not fn:
+        chain.append((p, cur))
+        cur = p
+        p = par.get(cur)
+    in_loop = any(isinstance(x, (ast.For, ast.AsyncFor, ast.While)) for x, _ in chain)
+    for p, cur in chain:
+        if isinstance(p, (ast.If, ast.While, ast.IfExp)) and not any(cur is x for x in ast.walk(p.test)):
+            for n in ast.walk(p.test):
+                atoms: Set[Atom] = set()
+                if isinstance(n, ast.Call):
+                    atoms = sp.prov(fn, n)
+                elif isinstance(n, ast.Name) and isinstance(n.ctx, ast.Load):
+                    for d in assignments(fn).get(n.id, []):
+                        if isinstance(d, ast.arg) or (not in_loop and getattr(d, 'lineno', 0) >= p.test.lineno):
+                            continue
+                        atoms |= sp._def(fn, n.id, d, 'exp', set())
+                if any(a[0] in ('db', 'dbf') for a in atoms):
+                    return True
+    return False
+
+
+def check_status_provenance(m: pf.Module, returns: bool = True) -> Tuple[List[StatusFinding], StatusProvenance]:
     sp = StatusProvenance(m)
     out: List[StatusFinding] = []
-    stale = ('other front-end replicas (batch/deployment.yaml runs several) commit updates, cancel or complete jobs without this process seeing it, and a read that was in flight when the entry was dropped puts the old answer back: '
-             'e.g. a batch completes and is polled here, an update with jobs is committed through another replica (commit_batch_update re-opens it: state running, n_jobs increased), and this process keeps answering '
-             'complete / the old n_jobs, n_completed - a client in wait() returns before the jobs it has just submitted have run')
+    stale = STALE
     for q, fn in sp.funcs:
-        if id(fn) not in sp.readers:
+        if id(fn) not in sp.readers and id(fn) not in sp.wrappers:
             continue
         mdec = memo_decorator(fn)
         if mdec:
             out.append(StatusFinding('bad', f'{m.rel}::{q}::memoised', f'{q}, which returns batch / job-group status, is wrapped by @{mdec}: answers are served from a per-process memo instead of the database; {stale}', fn.lineno))
         # (a) what the converters are fed with
-        for c in pf.calls_in(fn):
+        for c in sp.calls_of(fn):
             cname = (pf.dotted(c.func) or '').split('.')[-1]
             if cname in sp.converters and c.args:
                 atoms = sp.prov(fn, c.args[0])
                 cons = f'{m.rel}::{q}::record given to {cname}'
                 ret = sorted(a[1] for a in atoms if a[0] == 'ret')
                 if ret:
-                    out.append(StatusFinding('bad', cons, f'the record passed to {cname} can come from {ret[0]}, state that outlives the request, instead of a query executed by this request: {stale}', c.lineno))
-                elif any(a[0] in ('unk', 'param', 'reader') for a in atoms) or not any(a[0] == 'db' for a in atoms):
+                    out.append(StatusFinding('bad', cons, f'the record passed to {cname} can come from {ret[0]}{_where_stored(sp, ret[0])}, state that outlives the request, instead of a query executed by this request: {stale}', c.lineno))
+                elif any(a[0] in ('unk', 'param', 'reader', 'apph') for a in atoms) or not any(a[0] == 'db' for a in atoms):
                     out.append(StatusFinding('undecided', cons, f'where the record passed to {cname} comes from is not decided ({sorted(str(a[:2]) for a in atoms)[:3]})', c.lineno))
                 else:
                     out.append(StatusFinding('ok', cons, f'query result of this invocation (line(s) {sorted(a[1] for a in atoms if a[0] == "db")})', c.lineno))
+        if not returns:
+            continue
         # (c) what the reader returns
         bad_ret = None
+        und_ret = None
         n_ret = 0
-        for r in pf.walk_shallow(fn):
-            if isinstance(r, (ast.Return, ast.Yield)) and r.value is not None:
+        for r in sp.returns_of(fn):
+            if True:
                 n_ret += 1
                 atoms = sp.prov(fn, r.value)
-                hits = sorted(a[1] for a in atoms if a[0] == 'ret' and a[2] is True)
+                hits = sorted(a[1] for a in atoms if a[0] == 'ret' and sp.is_typed(a))
                 if hits and bad_ret is None:
                     bad_ret = (r, hits[0])
+                soft = sorted(a[1] for a in atoms if a[0] == 'ret' and not sp.is_typed(a) and not sp.startup_only(a[1]))
+                if soft and und_ret is None:
+                    und_ret = (r, f'it is read back from {soft[0]}{_where_stored(sp, soft[0])}, state that outlives the request and is written while requests are served; whether a status can be in it is not decided')
+                if ('apph',) in atoms and und_ret is None:
+                    und_ret = (r, 'the application object itself is handed to code outside this module, whose answer is returned: whether that code answers from per-process state is not decided')
         cons = f'{m.rel}::{q}::returned status'
-        if bad_ret is not None:
+        if bad_ret is None:
+            # a field of the status object overwritten from an object that other invocations fill from the database
+            for name, muts in sp.mutations(fn).items():
+                nm = ast.Name(id=name, ctx=ast.Load())
+                if not any(sp.is_typed(a) for a in sp.obj_prov(fn, nm)):
+                    continue
+                for st, t, v in muts:
+                    if t is not None and sp.off_topic(fn, t):
+                        continue
+                    hits = sorted(a[1] for a in sp.prov(fn, v) if a[0] == 'ret' and a[1] in sp.dbfed_roots)
+                    if hits and bad_ret is None:
+                        bad_ret = (st, hits[0])
+        if bad_ret is not None and _validated_by_fresh_read(sp, fn, bad_ret[0]):
             r, root = bad_ret
-            out.append(StatusFinding('bad', cons, f'`{pf.nsrc(r)[:80]}` answers with a status that was read back from {root} - state that outlives the request and into which this module stores status dicts - '
+            out.append(StatusFinding('undecided', cons, f'`{pf.nsrc(r)[:80]}` answers from {root}, state that outlives the request, under a condition that depends on a database query of this request: whether that '
+                                                        'comparison proves the remembered status current (n_jobs, state, time_completed all compared) is not decided', r.lineno))
+        elif bad_ret is not None:
+            r, root = bad_ret
+            out.append(StatusFinding('bad', cons, f'`{pf.nsrc(r)[:80]}` answers with a status that was read back from {root}{_where_stored(sp, root)} - state that outlives the request and into which this module stores status dicts - '
                                                   f'not from a query executed by this request (served from a process-local memo): {stale}', r.lineno))
-        elif id(fn) in sp.direct:
+        elif und_ret is not None:
+            r, why = und_ret
+            out.append(StatusFinding('undecided', cons, f'`{pf.nsrc(r)[:80]}`: {why}', r.lineno))
+        elif id(fn) in sp.direct and n_ret:
             out.append(StatusFinding('ok', cons, f'{n_ret} return(s): no status read back from retained state', fn.lineno))
+        elif id(fn) in sp.direct:
+            # (d) a reporter that returns nothing SENDS the status (callback payloads): what it hands to other code
+            cons = f'{m.rel}::{q}::status sent'
+            sent = None
+            n_sent = 0
+            for c in sp.calls_of(fn):
+                if (pf.dotted(c.func) or '').split('.')[-1] in sp.converters:
+                    continue
+                for a in list(c.args) + [k.value for k in c.keywords]:
+                    atoms = sp.prov(fn, a)
+                    if any(sp.is_typed(x) for x in atoms):
+                        n_sent += 1
+                        hits = sorted(x[1] for x in atoms if x[0] == 'ret' and sp.is_typed(x))
+                        if hits and sent is None:
+                            sent = (c, hits[0])
+            if sent is not None:
+                c, root = sent
+                out.append(StatusFinding('bad', cons, f'`{pf.nsrc(c)[:80]}` sends a status that was read back from {root}{_where_stored(sp, root)} - state that outlives the invocation - not from a query executed by it: {stale}', c.lineno))
+            elif n_sent:
+                out.append(StatusFinding('ok', cons, f'{n_sent} argument(s) carrying a status: none read back from retained state', fn.lineno))
     return out, sp
+
+
+def check_converter_pure(m: pf.Module, fname: str) -> StatusFinding:
+    """A record -> dict converter answers from its argument: no return of it reads state that outlives the call."""
+    sp = StatusProvenance(m, converters=())
+    fn = m.func(fname)
+    cons = f'{m.rel}::{fname}::answers from its record'
+    n = 0
+    for r in sp.nodes_of(fn):
+        if isinstance(r, (ast.Return, ast.Yield)) and r.value is not None:
+            n += 1
+            ret = sorted(a[1] for a in sp.prov(fn, r.value) if a[0] == 'ret')
+            if ret:
+                return StatusFinding('bad', cons, f'`{pf.nsrc(r)[:80]}` in {fname} answers from {ret[0]}{_where_stored(sp, ret[0])}, state that outlives the call, instead of the record it was given: every reporter of batch / job-group status '
+                                                  f'goes through this function, so the reported completion and counts are those of an earlier request; {STALE}', r.lineno)
+    if n == 0:
+        return StatusFinding('undecided', cons, f'{fname} has no return statement with a value', fn.lineno)
+    return StatusFinding('ok', cons, f'{n} return(s) computed from the parameter only', fn.lineno)
